@@ -409,7 +409,9 @@ fn selftest(args: &Args) -> i32 {
     for ty in 0..5 {
         for n in [1usize, 7, 8, 9, 33, 64, 257, 1100] {
             let mut out = Out::default();
-            run_unit(args.seed, ty, n, 0, &policy, true, &mut out);
+            for rep in 0..4 {
+                run_unit(args.seed, ty, n, rep, &policy, true, &mut out);
+            }
             total += 1;
             if !out.failures.is_empty() {
                 fired += 1;
@@ -489,8 +491,8 @@ pub fn run(args: &Args) -> i32 {
         return code;
     }
 
-    let reps: u64 = args.tier.pick(5, 120);
-    let threads = std::thread::available_parallelism().map(|x| x.get()).unwrap_or(8).min(16);
+    let reps: u64 = args.tier.pick(60, 2000);
+    let threads = crate::quiet::threads();
     // ---- all lengths x all types ----
     let next = AtomicU64::new(0);
     let total_units = (5 * (MAX_LEN + 1)) as u64;
@@ -531,8 +533,8 @@ pub fn run(args: &Args) -> i32 {
     report.set("exhaustive_subspace", json!("vector length 0..=1100 for each of f32/f64/f16/bf16/u8 (>=1 case per (type,length))"));
 
     // ---- argmin + centroid assignment ----
-    let n_arg: u64 = args.tier.pick(4000, 200_000);
-    let n_km: u64 = args.tier.pick(1200, 60_000);
+    let n_arg: u64 = args.tier.pick(20_000, 1_000_000);
+    let n_km: u64 = args.tier.pick(6000, 300_000);
     let next = AtomicU64::new(0);
     std::thread::scope(|s| {
         for _ in 0..threads {
